@@ -54,7 +54,11 @@ func (sv structValue) PropertyValue(index Value) Value {
 		return sv.invoke(m)
 	}
 	if field, ok := sv.findField(name); ok {
-		fv := sr.FieldByName(field.Name)
+		// a field promoted from an embedded struct that is a nil pointer has no value
+		fv, err := sr.FieldByIndexErr(field.Index)
+		if err != nil {
+			return nilValue
+		}
 		if fv.Kind() == reflect.Func {
 			return sv.invoke(fv)
 		}
